@@ -16,10 +16,12 @@ open SafeNet.ArgTable SafeNet.Gen.Upgrade
 def viaBuilder : Path → Src := viaLiteral builderLiteral
 
 /-- `NodeServiceData { .. }` of `add_node` as a substitution; `#env` / `#cli.x` are not registry
-fields (environment in force at upgrade time, locals of `antctl upgrade`) and pass through. -/
+fields (environment in force at upgrade time, locals of `antctl upgrade`) and pass through; so does `~.x`
+(circumstances of a daemon restart: `~.regenv`, `~.listenport`, `~.new.x`). -/
 def viaData : Path → Src
   | "#env" :: rest => .var ("#env" :: rest)
   | "#cli" :: rest => .var ("#cli" :: rest)
+  | "~" :: rest => .var ("~" :: rest)
   | p => viaLiteral dataLiteral p
 
 /-- What `build_upgrade_install_context` reads: registry fields as they are, `#upgrade.x` through
@@ -103,5 +105,68 @@ def parseArgStrings (args : List String) : Except PErr Parsed := parseArgv activ
 `node_port` (what `on_start` makes of the registry entry, seen from `add_node`'s expressions). -/
 def pin (σ : Valuation) (listen : Option AStr) : Valuation :=
   fun p => if p = ["node_port"] then (match listen with | some x => .opt (some x) | none => σ p) else σ p
+
+/-! ### A later `antctl add --env` of OTHER services rewrites the registry-wide environment -/
+
+def registryEnvAfterLater (reg later : Option AStr) : Option AStr :=
+  match later with
+  | some l => some l
+  | none => reg
+
+/-- `envAtUpgrade` with a later add of other services (`later` = its `--env`) between this add and the upgrade. -/
+def envAtUpgradeLater (σ : Valuation) (provided prev : Option AStr) (out : AddOutcome) (later : Option AStr) : Option AStr :=
+  match provided with
+  | some e => some e
+  | none => registryEnvAfterLater (registryEnvAfterInstall σ prev out) later
+
+def withEnvLater (σ : Valuation) (provided prev : Option AStr) (out : AddOutcome) (later : Option AStr) : Valuation :=
+  fun p => if p = ["#env"] then .opt (envAtUpgradeLater σ provided prev out later) else σ p
+
+/-! ### `cmd::node::add`: the bootstrap cache directory handed to `add_node` -/
+
+def cachePath : Path := ["options", "peers_args", "bootstrap_cache_dir"]
+
+/-- From the `--bootstrap-cache-dir` given on antctl's command line (`given`) and the service user's default
+directory (`dflt`; `None` in user mode), as the source does it (`addKeepsUserBootstrapCacheDir`). -/
+def cliBootstrapCacheDir (keeps : Bool) (given dflt : Option AStr) : Option AStr :=
+  if keeps then (match given with | some d => some d | none => dflt) else dflt
+
+def withCli (σ : Valuation) (keeps : Bool) (given dflt : Option AStr) : Valuation :=
+  fun p => if p = cachePath then .opt (cliBootstrapCacheDir keeps given dflt) else σ p
+
+/-! ### Service level (system / user) handed to the service manager -/
+
+/-- level `add_node` installs at (over `add_node`'s expressions) -/
+def installLevel (σ : Valuation) : Val := evalSrc σ addInstallLevel
+
+/-- (uninstall, install) levels of `ServiceManager::upgrade` for a registry entry -/
+def upgradeLevels (data : Valuation) : Val × Val :=
+  (evalSrc data upgradeUninstallLevel, evalSrc data upgradeInstallLevel)
+
+/-! ### The daemon's restart (`rpc::restart_node_service`): two more service definitions
+
+Both go through `InstallNodeServiceCtxBuilder::build` (the install table); the builder is filled from the
+registry entry being restarted. `~.regenv` = registry-wide environment, `~.listenport` = `get_antnode_port()`
+(the port of the recorded listen address), `~.new.x` = locals derived from the replacement's name. -/
+
+def viaRestartRetain : Path → Src := viaLiteral restartRetainLiteral
+def viaRestartReplace : Path → Src := viaLiteral restartReplaceLiteral
+
+def buildRestartRetain (data : Valuation) : List Item := interp evmDisplay installTable (through viaRestartRetain data)
+def restartRetainSettings (data : Valuation) : List (String × Val) := ctxOf installCtx (through viaRestartRetain data)
+def restartRetainLevels (data : Valuation) : Val × Val :=
+  (evalSrc data restartRetainUninstallLevel, evalSrc data restartRetainInstallLevel)
+
+def buildRestartReplace (data : Valuation) : List Item := interp evmDisplay installTable (through viaRestartReplace data)
+def restartReplaceSettings (data : Valuation) : List (String × Val) := ctxOf installCtx (through viaRestartReplace data)
+
+/-- the registry entry recorded for the replacement service -/
+def viaReplaceData : Path → Src
+  | "#env" :: rest => .var ("#env" :: rest)
+  | "#cli" :: rest => .var ("#cli" :: rest)
+  | "~" :: rest => .var ("~" :: rest)
+  | p => viaLiteral restartReplaceData p
+
+def replaceRecordOf (data : Valuation) : Valuation := through viaReplaceData data
 
 end SafeNet.Upgrade
